@@ -156,6 +156,19 @@ def programs(tier: str):
                     ctxs = ("none", "scope") if tier == "quick" else ("none", "scope", "scope+updated", "nested")
                     for cctx in ctxs:
                         yield {"family": "traced", "sig": sig, "form": fi, "input": inp, "outcome": outcome, "ctx": cctx}
+    # results with many digits / large size (identity preserved, recorded as they are), and the
+    # optional `loop=` parameter of asynchronous (alone, with an explicit executor)
+    for outcome in ("float-third", "float-tiny", "float-sum", "int-big", "str-long"):
+        for inp in ("sync", "async"):
+            yield {"family": "wrap_async", "sig": "a", "form": 0, "input": inp, "outcome": outcome}
+            for cctx in ("none", "scope"):
+                yield {"family": "traced", "sig": "a", "form": 0, "input": inp, "outcome": outcome, "ctx": cctx}
+        yield {"family": "asynchronous", "sig": "a", "form": 0, "kind": "function", "outcome": outcome, "executor": "default", "ctx": "scope"}
+    for kind in ("function", "method"):
+        for executor in ("explicit+loop", "loop"):
+            for outcome in ("value", "raise"):
+                for cctx in ("none", "scope", "scope+updated"):
+                    yield {"family": "asynchronous", "sig": "a", "form": 0, "kind": kind, "outcome": outcome, "executor": executor, "ctx": cctx}
     # the function's own exception is of a class a wrapper might handle itself (RuntimeError
     # family, LookupError family ...): handed back unchanged, the function ran exactly once
     for c in range(len(OWN18)):
@@ -603,7 +616,7 @@ def execute(program, ch: Chooser) -> Result:  # noqa: C901, PLR0912, PLR0915
         leak_cms.append(cm)
         if outcome in special:
             return special[outcome]  # a result object of an unusual type, returned as a value
-        if outcome not in ("value", "awaitable", "eq-all", "eq-nobool"):
+        if outcome not in ("value", "awaitable", "eq-all", "eq-nobool", "float-third", "float-tiny", "int-big", "str-long", "float-sum"):
             raise boom
         return RESULT
 
@@ -636,7 +649,7 @@ def execute(program, ch: Chooser) -> Result:  # noqa: C901, PLR0912, PLR0915
             return 4
 
     awaitable_result = AwaitableValue()
-    special = {"eq-all": EqAll(), "eq-nobool": EqNoBool(), "awaitable": awaitable_result}
+    special = {"eq-all": EqAll(), "eq-nobool": EqNoBool(), "awaitable": awaitable_result, "float-third": 1.0 / 3.0, "float-tiny": 2.5e-9, "int-big": 2**70 + 1, "str-long": "s" * 5000, "float-sum": 0.1 + 0.2}
     hb: dict = {"steps": 0}
     got: dict = {}
     completions: dict = {}
@@ -653,7 +666,16 @@ def execute(program, ch: Chooser) -> Result:  # noqa: C901, PLR0912, PLR0915
         receiver = None
         if fam == "asynchronous":
             raw = _make(sig, is_method, False, body)
-            deco = asynchronous if program["executor"] == "default" else asynchronous(executor=executor)
+            exe = program["executor"]
+            deco = (
+                asynchronous
+                if exe == "default"
+                else asynchronous(executor=executor)
+                if exe == "explicit"
+                else asynchronous(loop=w.loop, executor=executor)
+                if exe == "explicit+loop"
+                else asynchronous(loop=w.loop)
+            )
             if is_method:
                 members: dict = {"f": deco(raw)}
                 if program.get("kind") == "method-falsy":
@@ -764,7 +786,7 @@ def execute(program, ch: Chooser) -> Result:  # noqa: C901, PLR0912, PLR0915
                 viols.append(viol("off-loop-thread", witness, "a worker thread", "the loop thread"))
             if hbt is not None and hb["steps"] != 2:
                 viols.append(viol("loop-keeps-serving", witness, "heartbeat completes", hb["steps"]))
-            if program["executor"] == "explicit" and executor.count != 1:
+            if program["executor"].startswith("explicit") and executor.count != 1:
                 viols.append(viol("executor", f"explicit-not-used/{witness}", 1, executor.count))
         if fam == "traced" and out is not None and out[0] != "other" and seen["calls"] == 1:
             if seen.get("label") != ["scope", "f"]:
